@@ -7,6 +7,8 @@ package main
 //   trace  : records random patterns / lines (small alphabet and arbitrary bytes), one long-lived
 //            instance per trace, results re-read at the end (B2; TLC computes every expectation)
 //   cli    : `rare filter -d <pattern> [-I] -l -e <expr>` over generated files (B2)
+//   conc   : W goroutines, each with its own instance of ONE compiled pattern, at the same time;
+//            also through extractor.New and `rare filter -w W` (B2, see conc.go)
 //
 // The driver never decides what a match should be: expectations come from TLC.
 
@@ -31,7 +33,7 @@ import (
 )
 
 func main() {
-	vh.Main(vh.Commands{"replay": c12Replay, "trace": c12Trace, "cli": c12Cli})
+	vh.Main(vh.Commands{"replay": c12Replay, "trace": c12Trace, "cli": c12Cli, "conc": c12Conc, "conc1": c12Conc1})
 }
 
 type M = vh.M
